@@ -8,7 +8,7 @@ from fractions import Fraction as Fr
 from vf import alg
 from vf import symops as SO
 from vf.alg import Poly, as_poly
-from vf.harness import Check, new_interp, N, L, H_of, loc, AnalysisBroken
+from vf.harness import Check, new_interp, N, L, H_of, loc, AnalysisBroken, call_forking
 from vf.interp import RepoRaise
 from vf.tens import Tens
 from specs import common as C
@@ -67,50 +67,57 @@ def run(tier="quick", only_key=None):
             u = Tens((Cn,) + (NO,) * D, [Poly.atom(("u", "u", c, "P")) for c in range(Cn)])
             key = f"exponax._interpolation.map_between_resolutions#D={D},old_parity={po},new_parity={pn},{'up' if up else 'down'},oddball_zero={odd0}"
             it.ctx.events.clear()
-            try:
-                res = it.call(mbr, [u, NN], {"oddball_zero": odd0})
-            except RepoRaise as e:
-                ck.fail("resolution-change", key, f"{e.file}:{getattr(e.node, 'lineno', '?')}", f"raises {e.exc_name}")
-                continue
+            variants = call_forking(it, mbr, [u, NN], {"oddball_zero": odd0})
             rows += 1
-            fits = [e for e in it.ctx.events if e["kind"] in ("block-fit", "block-misfit")]
-            bad = [e for e in fits if e["kind"] == "block-misfit"]
-            if bad:
-                ck.fail("block-fit", key + "#blocks", f"{bad[0]['file']}:{bad[0]['line']}", f"copied block does not denote the same wavenumbers in both spectra: {bad[0]['detail']}")
-            elif not fits:
-                ck.fail("block-fit", key + "#blocks", loc(mbr), "no mode block is copied")
-            else:
-                ck.ok("block-fit", key + "#blocks", form=[e["detail"] for e in fits])
-            # reference
-            Nmin = NO if up else NN
-            pmin = po if up else pn
-            m = (Nmin - pmin) / 2
-            ks = C.kvec(D)
-            band = Poly.const(1)
-            for j, k in enumerate(ks):
-                if j == D - 1:
-                    band = band * alg.ind("lt", k, m + 1)
+            for assume, res in variants:
+                vkey = key + ("" if not assume else "#if " + " and ".join(f"{c} is {v}" for c, v in assume))
+                if any(v and "fn(mod," in c and "==0" in c and (("Nold,Nnew" in c) == up) for c, v in assume):
+                    continue  # infeasible world: the smaller size is not a multiple of the larger one
+                if isinstance(res, Exception):
+                    at_ = f"{res.file}:{getattr(res.node, 'lineno', '?')}" if isinstance(res, RepoRaise) else loc(mbr)
+                    ck.fail("resolution-change", vkey, at_, f"raises {getattr(res, 'exc_name', type(res).__name__)}: {str(res)[:160]}")
+                    continue
+                if not isinstance(res, Tens) or tuple(map(str, res.shape)) != tuple(map(str, (Cn,) + (NN,) * D)):
+                    ck.fail("resolution-change", vkey, loc(mbr), f"result has shape {getattr(res, 'shape', None)} instead of (C,) + (N_new,)*D")
+                    continue
+                fits = [e for e in it.ctx.events if e["kind"] in ("block-fit", "block-misfit")]
+                bad = [e for e in fits if e["kind"] == "block-misfit"]
+                if bad:
+                    ck.fail("block-fit", vkey + "#blocks", f"{bad[0]['file']}:{bad[0]['line']}", f"copied block does not denote the same wavenumbers in both spectra: {bad[0]['detail']}")
+                elif not fits:
+                    ck.fail("block-fit", vkey + "#blocks", loc(mbr), "no mode block is copied")
                 else:
-                    band = band * (alg.ind("le", 0, k) * alg.ind("lt", k, m + pmin) + alg.ind("le", -m, k) * alg.ind("lt", k, 0))
-            mult = band * (NN / NO) ** D
-            if odd0 and pmin == 0:
-                mult = mult * C.lowpass(D, Nmin / 2 - 1)
-            ref = Tens((Cn,) + (NN,) * D, [C.ifft(mult * C.fft(u.data[c], D), D) for c in range(Cn)])
-            res = Tens(res.shape, [SO.kill_contradictions(e) for e in res.data])
-            ref = Tens(ref.shape, [SO.kill_contradictions(e) for e in ref.data])
-            ck.compare("resolution-change", key, loc(mbr), res, ref, what="result differs from ifft(band * (N_new/N_old)^D * [oddball] * fft(u))")
-            # mean preserved: the multiplier at the mean mode is (N_new/N_old)^D
-            dc = None
-            for e in res.data[:1]:
-                idc = [a for a in e.all_atoms() if a[0] == "Idc"]
-                coeff = Poly()
-                for mm, cc in e.t.items():
-                    if any(a[0] == "Idc" for a, _ in mm):
-                        coeff = coeff + Poly({tuple((a, x) for a, x in mm if a[0] != "Idc"): cc})
-                dc = SO.assume_mean_mode_retained(coeff)
-            # indicators 1{0 < m+1} etc. are true for every grid (m >= 1)
-            dcn = _positivity(dc)
-            ck.compare("mean-preserved", key + "#mean", loc(mbr), dcn, (NN / NO) ** D, what="mean mode is not rescaled by (N_new/N_old)^D")
+                    ck.ok("block-fit", vkey + "#blocks", form=[e["detail"] for e in fits])
+                # reference
+                Nmin = NO if up else NN
+                pmin = po if up else pn
+                m = (Nmin - pmin) / 2
+                ks = C.kvec(D)
+                band = Poly.const(1)
+                for j, k in enumerate(ks):
+                    if j == D - 1:
+                        band = band * alg.ind("lt", k, m + 1)
+                    else:
+                        band = band * (alg.ind("le", 0, k) * alg.ind("lt", k, m + pmin) + alg.ind("le", -m, k) * alg.ind("lt", k, 0))
+                mult = band * (NN / NO) ** D
+                if odd0 and pmin == 0:
+                    mult = mult * C.lowpass(D, Nmin / 2 - 1)
+                ref = Tens((Cn,) + (NN,) * D, [C.ifft(mult * C.fft(u.data[c], D), D) for c in range(Cn)])
+                res = Tens(res.shape, [SO.kill_contradictions(e) for e in res.data])
+                ref = Tens(ref.shape, [SO.kill_contradictions(e) for e in ref.data])
+                ck.compare("resolution-change", vkey, loc(mbr), res, ref, what="result differs from ifft(band * (N_new/N_old)^D * [oddball] * fft(u))")
+                # mean preserved: the multiplier at the mean mode is (N_new/N_old)^D
+                dc = None
+                for e in res.data[:1]:
+                    idc = [a for a in e.all_atoms() if a[0] == "Idc"]
+                    coeff = Poly()
+                    for mm, cc in e.t.items():
+                        if any(a[0] == "Idc" for a, _ in mm):
+                            coeff = coeff + Poly({tuple((a, x) for a, x in mm if a[0] != "Idc"): cc})
+                    dc = SO.assume_mean_mode_retained(coeff)
+                # indicators 1{0 < m+1} etc. are true for every grid (m >= 1)
+                dcn = _positivity(dc)
+                ck.compare("mean-preserved", vkey + "#mean", loc(mbr), dcn, (NN / NO) ** D, what="mean mode is not rescaled by (N_new/N_old)^D")
     # equal sizes
     it = new_interp(ck.repo, parity=0)
     mbr = it.module("exponax._interpolation").env.get("map_between_resolutions")
